@@ -130,8 +130,31 @@ Theorem C05_map_xml_indent_checked_sound : forall o accept m root its,
 Proof. exact map_xml_indent_checked_sound_l. Qed.
 Print Assumptions C05_map_xml_indent_checked_sound.
 
+(* NOT PROVED (false of the code): "with the check on a nil error implies WELL-FORMED output".
+   What holds is the conditional: the output has every property the acceptor guarantees ... *)
+Theorem C05_checked_wellformed_partial : forall (wf : str -> Prop) o (accept : str -> bool) r its,
+  (forall b, accept b = true -> wf b) ->
+  xmlCheckIsValid o = true -> checked_enc o accept r = Ok its -> wf (emit its).
+Proof. exact checked_wf_partial_l. Qed.
+Print Assumptions C05_checked_wellformed_partial.
+
 Local Open Scope string_scope.
 Local Open Scope list_scope.
+(* ... but the acceptor the four encoders use - encoding/xml's Token loop - accepts content after the
+   root element.  Witness: Map{r: {-b: QUOTE/>}}.Xml() with escaping off and the check on writes
+   <r b=QUOTE QUOTE/> QUOTE/> ; the tokenizer reads an empty attribute and then the character data QUOTE/>
+   after the root, without error (the acceptance bit [true] below is re-observed on every run by the fixed
+   correspondence cases of harness/c05.go), so the bytes come back with a nil error although an attribute
+   value contains a raw double quote (oracle key content-after-root-accepted; recorded finding). *)
+Definition ex_quote_map : entries := [(s "r", VMap [(s "-b", VStr (s """/>"))])].
+Definition ex_off_chk_opts : opts := mko (s "-") false false false false false false true true false false false true false false (s "#").
+Theorem C05_checked_wellformed_refuted :
+  exists o m its, xmlCheckIsValid o = true /\ xmlEscapeChars o = false /\
+    checked o true (map_xml_items o m None) = Ok its /\
+    emit its = s "<r b=""""/>""/>" /\ attrs_quote_free its = false.
+Proof. exists ex_off_chk_opts, ex_quote_map. eexists. vm_compute. repeat split. Qed.
+Print Assumptions C05_checked_wellformed_refuted.
+
 Definition ex_accept (b : str) : bool := negb (containsb (s "x<y") b).
 Definition ex_chk_opts : opts := mko (s "-") false false false false false false true true false false false true false false (s "#").
 
